@@ -22,6 +22,8 @@ from collections import defaultdict
 import re
 
 from ._base import Node
+from .external_link import ExternalLink
+from .heading import Heading
 from .html_entity import HTMLEntity
 from .text import Text
 from .extras import Parameter
@@ -305,7 +307,13 @@ class Template(Node):
                         int_keys.add(int(str(param.name)))
                 expected = min(set(range(1, len(int_keys) + 2)) - int_keys)
                 if expected == int_name:
-                    showkey = False
+                    # An "=" inside a link or heading cannot be escaped and
+                    # would end the name, so the name is written out then:
+                    showkey = any(
+                        "=" in str(node)
+                        for node in value.nodes
+                        if isinstance(node, (ExternalLink, Heading))
+                    )
                 else:
                     showkey = True
             else:
